@@ -6,10 +6,10 @@ from harness.tlc import from_atoms
 from harness.props import c01
 
 INV = ['C01_RoundTrip', 'C02_Structure', 'C03_Search', 'OutcomeIsDiagnostic']
-HOSTILE = ['}', '{', ']', '[', '$', '\\end{e}', '\\begin{e}', '\\item', '%', 'x\\', '\\a{', '\\]', '\\)', '\\end{itemize}',
+HOSTILE = ['}', '{', ']', '[', '$', '\\a{x}', '\\end{e}', '\\begin{e}', '\\item', '%', 'x\\', '\\a{', '\\]', '\\)', '\\end{itemize}',
            '\\end{equation}', '', '\\end{verbatim}', '\\end{lstlisting}',
            '$$', ' c d', '\\begin{verbatim}', '\\[', '\\(', '\\end{Verbatim}', '\\end{verbatimtab}', '\\end{listing}', '\\begin{lstlisting}']
-NAMES = ['end', 'begin', 'item', 'a', 'e', 'verbatim']
+NAMES = ['end', 'begin', 'item', 'a', 'e', 'verbatim', '\\a{x}', '\\end{e}']
 
 
 def check_doc(args, pfx='C10'):
@@ -29,6 +29,9 @@ def check_doc(args, pfx='C10'):
         for qr in ent['res']:
             q = from_atoms(qr['q'])
             got = sorted(n.position for n in soup.find_all(q))
+            if soup.count(q) != len(qr['pos']):
+                bad.append((pfx + '-search', {'query': q, 'count': soup.count(q), 'want': len(qr['pos'])}))
+                break
             if got != sorted(qr['pos']):
                 bad.append((pfx + '-search', {'query': q, 'got': got, 'want': sorted(qr['pos'])}))
                 break
@@ -40,7 +43,7 @@ def scopes(chk):
     common = {'ComPool': HOSTILE if not quick else HOSTILE[:18], 'ExtraQueries': NAMES, 'VerbNames': [], 'Leaves': [], 'Seps': ['']}
     sc = []
     p = dict(common)
-    p.update({'Budget': 4, 'TextPool': ['\n', '\nx'], 'MathTextPool': ['x', '\n', '\ny'], 'CmdNames': ['a'], 'EnvNames': ['e'],
+    p.update({'Budget': 4, 'TextPool': ['\n', '\nx', '\r\nx', '\r'], 'MathTextPool': ['x', '\n', '\ny'], 'CmdNames': ['a'], 'EnvNames': ['e'],
               'ListNames': ['itemize'], 'MathKinds': ['$', '$$', '\\(', '\\['], 'MEnvNames': ['equation'], 'Labels': [''], 'MaxSib': 2, 'MaxArgs': 2})
     sc.append(('contexts', p))
     p = dict(common)
